@@ -89,3 +89,13 @@ func verifGate(point, sid string) {
 		g(point, sid)
 	}
 }
+
+// VerifQuitClosed reports whether OnStop has closed the quit channel of the current run.
+func (sk *SpaceKeeper) VerifQuitClosed() bool {
+	select {
+	case <-sk.quit:
+		return true
+	default:
+		return false
+	}
+}
